@@ -71,6 +71,7 @@ def plan(tier, seed, build, scale):
         units.append({"cases": [a, min(n, a + per)]})
         a += per
     units.append({"mode": "dedup", "cases": [0, 1]})
+    units.append({"mode": "refusals", "cases": [0, 1]})
     return units
 
 
@@ -202,6 +203,172 @@ def run_dedup(res, inc, progress):
     return res
 
 
+def run_refusals(res, inc, progress):
+    """While asyncio mode is on, the plain synchronous call of ANY asynq function is refused with RuntimeError -
+    whatever it is declared with (sync_fn=, async_proxy, the caching / deduplicating / retrying decorators on top)
+    and whichever way it is reached (function, method through instance or class, classmethod, staticmethod) - and
+    nothing of it runs."""
+    import asynq
+    from asynq import asynq as A, async_proxy, ConstFuture, is_asyncio_mode
+    from asynq.tools import acached_per_instance, alazy_constant, alru_cache, aretry, deduplicate
+
+    ran = []
+
+    @A()
+    def fn(x):
+        ran.append("fn")
+        return x
+
+    def _sync(x):
+        ran.append("sync_fn of pair")
+        return x
+
+    @A(sync_fn=_sync)
+    def pair(x):
+        ran.append("pair")
+        return x
+
+    @async_proxy()
+    def proxy(x):
+        ran.append("proxy")
+        return ConstFuture(x)
+
+    @deduplicate()
+    @A()
+    def dd(x):
+        ran.append("dd")
+        return x
+
+    @alru_cache()
+    @A()
+    def lru(x):
+        ran.append("lru")
+        return x
+
+    @aretry(Exception)
+    @A()
+    def retry(x):
+        ran.append("retry")
+        return x
+
+    @alazy_constant()
+    @A()
+    def lazyc():
+        ran.append("lazyc")
+        return 1
+
+    class K(object):
+        @A()
+        def m(self, x):
+            ran.append("m")
+            return x
+
+        @A()
+        @classmethod
+        def cm(cls, x):
+            ran.append("cm")
+            return x
+
+        @A()
+        @staticmethod
+        def sm(x):
+            ran.append("sm")
+            return x
+
+        def _msync(self, x):
+            ran.append("sync_fn of pm")
+            return x
+
+        @A(sync_fn=_msync)
+        def pm(self, x):
+            ran.append("pm")
+            return x
+
+        @staticmethod
+        def _ssync(x):
+            ran.append("sync_fn of psm")
+            return x
+
+        @A(sync_fn=_ssync)
+        @staticmethod
+        def psm(x):
+            ran.append("psm")
+            return x
+
+        @classmethod
+        def _csync(cls, x):
+            ran.append("sync_fn of pcm")
+            return x
+
+        @A(sync_fn=_csync)
+        @classmethod
+        def pcm(cls, x):
+            ran.append("pcm")
+            return x
+
+        @acached_per_instance()
+        @A()
+        def pi(self, x):
+            ran.append("pi")
+            return x
+
+        @async_proxy()
+        def pr(self, x):
+            ran.append("pr")
+            return ConstFuture(x)
+
+    k = K()
+    cases = [
+        ("function", lambda: fn(1)), ("function with sync_fn", lambda: pair(1)), ("async_proxy function", lambda: proxy(1)),
+        ("deduplicate", lambda: dd(1)), ("alru_cache", lambda: lru(1)), ("aretry", lambda: retry(1)), ("alazy_constant", lambda: lazyc()),
+        ("method via instance", lambda: k.m(1)), ("method via class", lambda: K.m(k, 1)),
+        ("classmethod via class", lambda: K.cm(1)), ("classmethod via instance", lambda: k.cm(1)),
+        ("staticmethod via class", lambda: K.sm(1)), ("staticmethod via instance", lambda: k.sm(1)),
+        ("method with sync_fn via instance", lambda: k.pm(1)), ("method with sync_fn via class", lambda: K.pm(k, 1)),
+        ("staticmethod with sync_fn via class", lambda: K.psm(1)), ("staticmethod with sync_fn via instance", lambda: k.psm(1)),
+        ("classmethod with sync_fn via class", lambda: K.pcm(1)), ("classmethod with sync_fn via instance", lambda: k.pcm(1)),
+        ("acached_per_instance", lambda: k.pi(1)), ("async_proxy method", lambda: k.pr(1)),
+    ]
+    for depth in (0, 1):
+        for n, (name, call) in enumerate(cases):
+            progress(n)
+            del ran[:]
+
+            @A()
+            def body():
+                try:
+                    call()
+                    return "returned"
+                except RuntimeError:
+                    return "RuntimeError"
+                except BaseException as e:
+                    return "%s: %s" % (type(e).__name__, str(e)[:100])
+                yield
+
+            @A()
+            def outer():
+                return (yield [body.asynq()])[0]
+
+            try:
+                got = asyncio.run((outer if depth else body).asyncio())
+            except BaseException as e:
+                got = "asyncio.run raised %r" % (e,)
+            res["evaluations"] += 1
+            inc("sync_call_probes")
+            inc("sync_call_refusal_cells")
+            if (got != "RuntimeError" or ran or is_asyncio_mode()) and len(res["violations"]) < 6:
+                res["violations"].append(
+                    {
+                        "oracle": "sync-call-in-asyncio-mode-did-not-raise-RuntimeError",
+                        "mechanism": "sync-call-in-asyncio-mode-did-not-raise-RuntimeError/" + name.replace(" ", "-"),
+                        "detail": {"callable": name, "observed": got, "code_that_ran": list(ran), "called_from_a_child_task": bool(depth), "asyncio_mode_afterwards": is_asyncio_mode()},
+                        "case": {"mode": "refusals", "cases": [0, 1]},
+                    }
+                )
+            res["nontrivial"].append(hash(("refuse", name, depth)) & 0xFFFFFFFFFFFF)
+    return res
+
+
 def run_unit(unit, progress):
     import asynq
     from asynq import is_asyncio_mode
@@ -215,6 +382,8 @@ def run_unit(unit, progress):
 
     if unit.get("mode") == "dedup":
         return run_dedup(res, inc, progress)
+    if unit.get("mode") == "refusals":
+        return run_refusals(res, inc, progress)
     a, b = unit["cases"]
     for i in range(a, b):
         progress(i)
